@@ -40,6 +40,7 @@ type Clause struct {
 type LoopSpec struct {
 	Invariants []*Clause
 	Decreases  []*Clause
+	Lets       []*Clause // "loop k let name = expr": value on entry to the loop (before its first iteration)
 }
 
 // Macro: a named heap-dependent predicate/term expanded at evaluation time:  //@ define name(a, b) = expr
@@ -225,6 +226,14 @@ func parseContractFile(path, pkgName, pkgPath string) ([]*Contract, error) {
 				ls.Invariants = append(ls.Invariants, c)
 			case "decreases":
 				ls.Decreases = append(ls.Decreases, c)
+			case "let":
+				i := strings.Index(c.Text, "=")
+				if i < 0 {
+					return nil, fmt.Errorf("%s: loop let needs name = expr", where)
+				}
+				c.Label = strings.TrimSpace(c.Text[:i])
+				c.Text = strings.TrimSpace(c.Text[i+1:])
+				ls.Lets = append(ls.Lets, c)
 			default:
 				return nil, fmt.Errorf("%s: bad loop clause kind %q", where, m2[1])
 			}
@@ -262,7 +271,7 @@ func parseContractFile(path, pkgName, pkgPath string) ([]*Contract, error) {
 	for _, c := range out {
 		all := [][]*Clause{c.Requires, c.Ensures, c.Modifies, c.Decreases, c.Lets, c.Uses}
 		for _, ls := range c.Loops {
-			all = append(all, ls.Invariants, ls.Decreases)
+			all = append(all, ls.Invariants, ls.Decreases, ls.Lets)
 		}
 		for _, list := range all {
 			for _, cl := range list {
@@ -501,7 +510,12 @@ func preprocess(s string) (string, error) {
 			}
 			inner := s[i+1 : j]
 			var outs []string
-			for _, p := range splitTop(inner, ",") {
+			groups := splitTop(inner, ",")
+			if ti := strings.TrimSpace(inner); c == '(' && (strings.HasPrefix(ti, "forall ") || strings.HasPrefix(ti, "exists ")) {
+				// a parenthesised quantifier: its variable list may contain commas
+				groups = []string{inner}
+			}
+			for _, p := range groups {
 				if strings.TrimSpace(p) == "" {
 					outs = append(outs, p)
 					continue
